@@ -28,7 +28,7 @@ CONSTANTS
   KeepPagesWritable = FALSE
   TrampFlushed = TRUE
   UserCalls = TRUE
-  MaxUserCalls = 3
+  MaxUserCalls = 2
   InstallKinds = {"jump"}
   Faults = {}
   SiteReuse = TRUE
